@@ -125,6 +125,18 @@ def run(ctx):
     rvb = P.fn("VersionIndex::remove_versions_by" if tiered else "VersionChain::remove_versions_by")
     ctx.ob("R1c", "discard->remove_versions_by", rvb.id in P.reach([disc]),
            what="discard_uncommitted_versions does not reach VersionChain::remove_versions_by", where=disc.loc())
+    # the undo is unconditional per structure: every path through discard_uncommitted_versions takes the write lock of
+    # each versioned structure it cleans (a "nothing to do" exit that looks at one structure skips the others: a transaction
+    # that only created edges is then not undone)
+    vc = common.versioned_cells(P)
+    for role in ("nodes", "edges"):
+        cellname = vc[role]
+        acq = {a.block for a in E.own_acc(disc) if a.cell[1] == cellname and a.kind == "LOCK_W"}
+        ctx.floor("R1c", len(acq), 1, "write-lock acquisitions of LpgStore.%s in discard_uncommitted_versions" % cellname)
+        ok = must_pass(disc, 0, acq, set(disc.exits()))
+        ctx.ob("R1c", "discard#always-cleans-%s" % role, ok,
+               what="LpgStore::discard_uncommitted_versions can return without cleaning LpgStore.%s (an exit that does not pass its "
+                    "write lock): versions created by the rolled-back transaction in that structure stay visible" % cellname, where=disc.loc())
     # the retain predicate keeps a version iff created_by != tx
     found = []
     for g in P.family(rvb):
